@@ -94,7 +94,7 @@ Proof. vm_compute. repeat split; reflexivity. Qed.
 (* ================= nested field paths of select items (Model/NestedPath.v: utils/fieldpath + processSimpleField) =================
    Values: scalars, arrays, maps (jvalue); a path TEXT is parsed (np_parse = ParseFieldPath) into parts
    and resolved step by step (nested_field = GetNestedField, incl. the fallback to plain dot access on a
-   parse error and the panic of a lone-quote bracket). *)
+   parse error). *)
 
 (* compositionality on parts: the parts ps ++ qs resolve as qs in the value ps resolves to *)
 Theorem C05_path_compositional : forall ps qs v,
@@ -234,16 +234,16 @@ Proof.
     intros H; repeat (destruct H as [H|H]; [discriminate|]); exact H.
 Qed.
 
-(* refuted: "a broken path yields NULL" -- a bracket holding a lone quote panics (F50; parseBracketContent
-   slices content[1:0]); the statement holds for every other malformed bracket (PErr -> plain dot access) *)
-Example C05_lone_quote_panics :
-  nested_field (JMap [([97]%N, JMap [])]) [97;91;39;93]%N = NPanic /\           (* a['] *)
+(* every malformed bracket yields NULL (PErr -> plain dot access); as found, a bracket holding a lone quote panicked
+   (parseBracketContent sliced content[1:0]): repaired, F52 *)
+Example C05_lone_quote_is_missing :
+  nested_field (JMap [([97]%N, JMap [])]) [97;91;39;93]%N = NMissing /\          (* a['] *)
   nested_field (JMap [([97]%N, JMap [])]) [97;91;93]%N = NMissing /\            (* a[]  *)
   nested_field (JMap [([97]%N, JMap [])]) [97;91;39;39;93]%N = NMissing.        (* a[''] *)
 Proof. vm_compute. repeat split; reflexivity. Qed.
 
 (* refuted: "a quoted key names the map entry" -- a key that contains '.' is cut at the dot before the
-   brackets are read (F51): d['k.l'] is missing although the entry is there *)
+   brackets are read (F53): d['k.l'] is missing although the entry is there *)
 Example C05_dotted_key_unresolved :
   let d := [100]%N in let kl := [107;46;108]%N in
   nested_field (JMap [(d, JMap [(kl, JS (VNum 7))])]) (d ++ [91;39] ++ kl ++ [39;93])%N = NMissing /\
